@@ -34,6 +34,8 @@ META_DIR = {
                b"Name=Remote NoPort\nType=1\nPath=/r\nHost=other.example\nPort=70\n\n"
                b"Name=A Web Link\nType=h\nPath=URL:http://example.com/x?y=1&z\nHost=+\nPort=+\n\n"
                b"Name=Relative\nType=0\nPath=c/x.txt\nHost=+\nPort=+\n\n"
+               b"Name=Write to us\nType=h\nPath=URL:mailto:admin@example.com\nHost=+\nPort=+\n\n"
+               b"Name=News\nType=h\nPath=/URL:news:comp.infosystems.gopher\nHost=+\nPort=+\n\n"
                b"Name=Find\nType=7\nPath=/f_files/plain.txt\nHost=+\nPort=+\n\n"
                b"Name=Other Daemon\nType=1\nPath=/archive\nPort=7071\n\n"
                b"Name=Other Host Same Port\nType=1\nPath=/archive\nHost=elsewhere.example\n",
@@ -42,7 +44,7 @@ META_DIR = {
 GM_DIR = {
     b"gophermap": b"Welcome & <hello>\n\n0Local file\tlocal.txt\n1Root\t/\n0Abs\t/target.txt\nhWeb\tURL:http://example.com/\n"
                   b"1Remote\t/x\tremote.example\t7070\n0RemoteDefPort\t/y\tremote.example\n7Search\t/target.txt\n0NoSel\n iLooksLikeInfo\tx\n"
-                  b"1OtherDaemon\t/archive\t\t7071\n",
+                  b"1OtherDaemon\t/archive\t\t7071\nhMail\tURL:mailto:admin@example.com\nhPhone\t/URL:tel:+15550100\n",
     b"local.txt": b"local\n",
 }
 
@@ -342,13 +344,17 @@ def run(ck):
     ck.pmap(_shard, shards)
     qs = search_strings(3 if ck.tier == "thorough" else 2) if ck.tier == "thorough" else [q for q in search_strings(3) if len(q) <= 2 or q.count(b"a") >= 1]
     sshards = []
+    # long search strings: around the sizes at which a line reader, a URL parser or a buffer might cut
+    longs = [(b"q%d-" % n + b"x" * n)[:n] for n in (255, 1021, 1024, 2040, 4090, 4096, 5000, 8192, 65536)]
+    for target in ("pyg", "sh"):
+        sshards.append((target, longs if target == "pyg" else longs[:-1]))  # (a 64 KiB string does not fit into one environment variable comfortably)
     for target in ("pyg", "sh"):
         tq = qs if target == "pyg" else [q for q in qs if len(q) <= 2] + ([q for q in qs if len(q) == 3] if ck.tier == "thorough" else [])
         for ch in core.chunks(tq, core.NPROC):
             sshards.append((target, ch))
     ck.pmap(_shard_search, sshards)
     ck.rule = ("directories of the names tree (%d names x kinds, link files, .cap, abstracts, a gophermap with remote/URL/search entries) viewed through %d protocol forms under handler lists x abstract_entries x abstract_headers; "
-               "trailing-slash variants; MIME agreement per selector; search strings of <= 3 characters over %d characters (no leading/trailing blank) through 8 protocol mechanisms to a PYG handler and to a script's environment; "
+               "trailing-slash variants; MIME agreement per selector; search strings of <= 3 characters over %d characters (no leading/trailing blank) and 9 long ones (255 .. 65536 bytes) through 11 protocol mechanisms to a PYG handler and to a script's environment; "
                "distinct = listings: (handler list, settings, entry counts); search: (target, length, all-agree)" % (len(worlds.NAMES), len(VIEWS), len(SEARCH_ALPHABET)))
     ck.bounds = {"names": len(worlds.NAMES), "views": len(VIEWS), "search_strings": len(qs)}
     ck.assumptions = ["clients are conservative: everything non-alphanumeric in a search string is percent-encoded where the protocol has an encoding",
